@@ -299,6 +299,20 @@ func (pg *program) Generate() (err error) {
 	return nil
 }
 
+// isExternalTest returns whether the package is an external test package: package p_test in _test.go files.
+func isExternalTest(program *loader.Program, pkgInfo *loader.PackageInfo) bool {
+	if !strings.HasSuffix(pkgInfo.Pkg.Name(), "_test") || len(pkgInfo.Files) == 0 {
+		return false
+	}
+	for _, astFile := range pkgInfo.Files {
+		file := program.Fset.File(astFile.Pos())
+		if file == nil || !strings.HasSuffix(file.Name(), "_test.go") {
+			return false
+		}
+	}
+	return true
+}
+
 func (pg *program) generatePackage(pkgInfo *loader.PackageInfo) error {
 	path := pkgInfo.Pkg.Path()
 	// ss := make([]string, len(pkgInfo.Files))
@@ -334,8 +348,10 @@ func (pg *program) generatePackage(pkgInfo *loader.PackageInfo) error {
 			if err := pkgGen.Print(); err != nil {
 				return err
 			}
-		} else {
+		} else if !isExternalTest(thisprogram, pkgInfo) {
 			// When the file has no content it should be removed.
+			// The external test package lives in the directory of the package under test:
+			// the derived.gen.go found there is not its own.
 			if err := pkgGen.Delete(); err != nil {
 				return err
 			}
